@@ -1,6 +1,7 @@
 package rules
 
 import (
+	"fmt"
 	"go/token"
 	"go/types"
 	"strings"
@@ -249,4 +250,77 @@ func (c *Ctx) cursorDoneMethod(h *ssa.Function) (*types.Var, bool, bool) {
 		return nil, false, false
 	}
 	return fv, bo.Op == token.EQL, true
+}
+
+// checkCallbackErrors implements R9.10: the decoders run inside quip callbacks that have no error result; a failure of a
+// consume helper called there reaches the caller only as a panic that quip turns back into an error. For every call of a
+// repository function with an error result made in an error-less function of package data: every path on which the error
+// is non-nil (or untested) ends in panic, and no path on which it was tested nil panics with it.
+func (c *Ctx) checkCallbackErrors() {
+	r := c.R
+	r.Rule("R9.10", "decode callbacks report failures: in an error-less function of package data, the error of every repository call leads to panic on every path where it is non-nil or untested, and is not raised on a path where it was tested nil (an inverted test makes every conformant input fail and every malformed one pass)")
+	n := 0
+	for _, fn := range c.G.Funcs() {
+		rel, ok := c.P.PkgOf(fn)
+		if !ok || rel != "data" || !c.P.HandWritten(fn) || fn.Synthetic != "" || core.ErrResultIndex(fn.Signature) >= 0 {
+			continue
+		}
+		ord := 0
+		for _, ci := range core.CallsIn(fn) {
+			h := ci.Common().StaticCallee()
+			if h == nil {
+				continue
+			}
+			if _, isRepo := c.P.PkgOf(h); !isRepo {
+				continue
+			}
+			e, has := core.ErrResultOfCall(ci)
+			if !has {
+				continue
+			}
+			ord++
+			n++
+			key := fmt.Sprintf("%s/callback-error:%s#%d", core.FuncName(fn), h.Name(), ord)
+			pos := c.P.Pos(ci.Pos())
+			if e == nil {
+				r.Violate("R9.10", key, pos, "the error of "+h.Name()+" is discarded in a callback that cannot return it")
+				continue
+			}
+			var bad []string
+			complete := core.EnumPathsFrom(ci.Block(), 2, 20000, func(path []*ssa.BasicBlock) {
+				state := "untested"
+				for i := 0; i+1 < len(path); i++ {
+					if cond, taken, isBr := core.BranchTaken(path[i], path[i+1]); isBr {
+						if x, trueMeansNil, isNil := core.NilCmp(cond); isNil && x == e {
+							if taken == trueMeansNil {
+								state = "nil"
+							} else {
+								state = "nonnil"
+							}
+						}
+					}
+				}
+				last := path[len(path)-1]
+				p, isPanic := last.Instrs[len(last.Instrs)-1].(*ssa.Panic)
+				switch {
+				case state != "nil" && !isPanic:
+					bad = append(bad, "a path on which the error may be non-nil ends without panic: the failure is dropped and the partly assembled value is used")
+				case state == "nil" && isPanic:
+					x := p.X
+					if mi, ok := x.(*ssa.MakeInterface); ok {
+						x = mi.X
+					}
+					if x == e {
+						bad = append(bad, "panics with the error on the path where it was tested nil (the test is inverted)")
+					}
+				}
+			})
+			if !complete {
+				r.Undecided("R9.10", key, pos, "path enumeration exceeded its bound")
+				continue
+			}
+			r.Check(len(bad) == 0, "R9.10", key, pos, "the helper's error is raised exactly when it is non-nil", uniqJoin(bad))
+		}
+	}
+	r.Floor("R9.10", n, 1)
 }
